@@ -26,13 +26,14 @@ def run(ctx):
     P = model.Program(build.extract([REPO + '/' + u for u in UNITS], include_re='^/repo/(src|private|cppcms)/'))
     ctx.stats['functions'] = len(P.fns)
     R1 = ctx.rule('C02.R1', 'every completion handler is consumed at most once on every path (front-end sources)')
-    R2 = ctx.rule('C02.R2', 'no throw expression in connection classes and their callback structs')
+    R2 = ctx.rule('C02.R2', 'no throw expression in connection classes and their callback structs, and no throwing overload of a booster::aio socket operation where an error_code overload exists')
     R3 = ctx.rule('C02.R3', 'a peer-declared length is known to be non-negative before it sizes a buffer')
     R4 = ctx.rule('C02.R4', 'strlen-style walks over a receive buffer are dominated by a NUL sentinel store into that buffer')
     R5 = ctx.rule('C02.R5', 'FastCGI / SCGI parsing stays inside its buffers (linear bounds under the cursor invariant)')
     R6 = ctx.rule('C02.R6', 'error responses: written only if nothing was sent, reached only from a non-zero status')
     R7 = ctx.rule('C02.R7', 'application code is called inside try/catch(...) that turns exceptions into a status')
     R8 = ctx.rule('C02.R8', 'FastCGI continuations report success only for the expected record type / version / role')
+    R10 = ctx.rule('C02.R10', 'request preparation on the event-loop thread cannot throw: no throw expression and no checked (throwing) standard accessor is reachable from context::on_headers_ready / on_content_progress / on_request_ready outside a try block')
     R9 = ctx.rule('C02.R9', 'the cookie scanner makes progress on every input (no byte string can stall the event loop)')
 
     # ---------------- R1
@@ -65,6 +66,26 @@ def run(ctx):
         n2 += 1
         thr = [i for i in f.all_nodes() if f.N(i)['k'] == 'CXXThrowExpr']
         ctx.check(not thr, R2, f.bname.replace('cppcms::impl::cgi::', ''), 'throw inside a connection callback: the event loop rethrows it and service::run() stops', f.loc(thr[0]) if thr else f.where)
+        # socket operations come in pairs op(args, error_code &) / op(args) [throws system_error]: only the first may be used here
+        for i in f.calls():
+            n = f.N(i)
+            rec = model.strip_targs(n.get('rec') or '')
+            if n['k'] != 'CXXMemberCallExpr' or not rec.startswith('booster::aio::'):
+                continue
+            ov = n.get('ov') or []
+            if ov and 'error_code' in ov[-1]:
+                continue
+            sh = q.short_of(f.callee(i))
+            def params_of(mid):
+                inner = mid[mid.index('(') + 1:mid.rindex(')')] if '(' in mid else ''
+                return [x.strip() for x in inner.split(',')] if inner.strip() else []
+            want_ps = [x.strip() for x in ov] + ['std::error_code &']
+            twins = [m for a_ in q._ancestors(P, rec) for r_ in P.brecords.get(a_, []) for m in r_.get('methods', []) if m.get('short') == sh and params_of(m.get('id', '')) == want_ps]
+            if not twins:
+                continue
+            guarded = any(f.N(a)['k'] == 'CXXTryStmt' and f.N(a)['ch'] and f.contains(f.N(a)['ch'][0], i) for a in f.ancestors(i))
+            ctx.check(guarded, R2, '%s:%s@L%d:error_code-overload' % (f.bname.replace('cppcms::impl::cgi::', ''), sh, n['l'] - f.line),
+                      'the throwing overload of %s::%s is used in a connection class (a peer reset makes it throw: in a destructor that is std::terminate, in a callback it stops service::run())' % (rec, sh), f.loc(i))
     ctx.floor(R2, 100)
 
     # ---------------- R3
@@ -310,6 +331,53 @@ def run(ctx):
         prog = cb not in reach
     ctx.check(len(lp) == 1 and len(calls_in) == 1 and cond_ok and prog, R9,
               'parse_cookies:every-iteration-calls-the-advancing-scanner', 'an iteration of the cookie loop can complete without consuming input', pc.where)
+
+    # ---------------- R10 nothing throws through the event loop while a request is prepared
+    XU = ['src/http_context.cpp', 'src/http_request.cpp', 'src/http_content_type.cpp', 'src/http_cookie.cpp', 'src/cgi_api.cpp', 'src/applications_pool.cpp', 'src/mount_point.cpp', 'src/http_protocol.cpp']
+    import os
+    PX = model.Program(build.extract([REPO + '/' + u for u in XU if os.path.exists(REPO + '/' + u)]))
+    THROWERS = ('std::basic_string::at', 'std::vector::at', 'std::map::at', 'std::deque::at', 'std::array::at', 'std::stoi', 'std::stol', 'std::stoul', 'std::stoll', 'std::stoull', 'std::stod', 'std::stof',
+                'std::bitset::test', 'std::basic_string::replace', 'std::basic_string::insert', 'std::basic_string::erase', 'std::basic_string::compare')
+
+    def guarded(f, i):
+        for a in f.ancestors(i):
+            if f.N(a)['k'] == 'CXXTryStmt' and f.N(a)['ch'] and f.contains(f.N(a)['ch'][0], i):
+                return True
+        return False
+
+    def throw_sites(f, chain, seen, out):
+        if f.id in seen:
+            return
+        seen.add(f.id)
+        for i in f.all_nodes():
+            n = f.N(i)
+            if n['k'] == 'CXXThrowExpr' and n['ch'] and not guarded(f, i):
+                out.append(('throw', chain + [f], i))
+        for i in f.calls():
+            if guarded(f, i):
+                continue
+            bc = f.bcallee(i) or ''
+            if bc in THROWERS and (bc.rsplit('::', 1)[-1] == 'at' or bc.startswith('std::sto') or bc == 'std::bitset::test'):
+                out.append((bc, chain + [f], i))
+            g = PX.fns.get(f.N(i).get('callee'))
+            if g is not None and g.entry is not None and g.file.startswith(REPO + '/src/') and not f.N(i).get('virt'):
+                throw_sites(g, chain + [f], seen, out)
+    roots = [PX.fn('cppcms::http::context::' + nm) for nm in ('on_headers_ready', 'on_content_progress', 'on_request_ready')]
+    seen10, out10 = set(), []
+    for r_ in roots:
+        throw_sites(r_, [], seen10, out10)
+    ctx.check(len(seen10) >= 20, R10, 'event-loop-preparation:functions-explored:%d' % len(seen10), 'call graph from the context callbacks is unexpectedly small', roots[0].where,
+              detail={'functions': sorted(PX.fns[x].short for x in seen10)[:60]})
+    for k, (what, chain, i) in enumerate(out10):
+        f = chain[-1]
+        ctx.check(False, R10, '%s:%s#%d' % (' > '.join(g.short for g in chain), what.rsplit('::', 1)[-1], k),
+                  '%s outside any try block is reachable from %s on the event-loop thread: the exception leaves service::run() and stops the whole service' % ('a throw expression' if what == 'throw' else what + '()', chain[0].short), f.loc(i))
+    # positive control: the detector sees the throw in context::async_flush_output
+    ctl_s, ctl_o = set(), []
+    throw_sites(PX.fn('cppcms::http::context::async_flush_output'), [], ctl_s, ctl_o)
+    ctx.require(any(w == 'throw' for (w, _, _) in ctl_o), 'C02.R10: the throw detector no longer matches its positive control context::async_flush_output')
+    ctx.check(True, R10, 'detector:positive-control:async_flush_output', loc=PX.fn('cppcms::http::context::async_flush_output').where)
+    ctx.assume('library calls without an analysed body are taken not to throw except the listed checked accessors; allocation failure is out of scope; virtual calls (application code, filters) are covered by C02.R7')
     ctx.floor(R9, 2)
     ctx.floor(R6, 7)
     ctx.floor(R8, 5)
